@@ -272,6 +272,8 @@ func main() {
 	lprog := loadLockProg(*repo)
 	lfacts := analyseLocks(lprog)
 	lfacts.addFacts(facts)
+	sfacts := analyseSessionFields(lprog)
+	sfacts.addFacts(facts)
 	fb, _ := json.MarshalIndent(facts, "", " ")
 	_ = os.WriteFile(filepath.Join(*out, "facts.json"), fb, 0o644)
 
@@ -311,10 +313,12 @@ func main() {
 	}
 	sb.WriteString("]\n")
 	lfacts.lean(&sb)
+	sfacts.lean(&sb)
 	sb.WriteString("\nend Rain.Generated.Access\n")
 	_ = os.WriteFile(filepath.Join(*out, "Access.lean"), []byte(sb.String()), 0o644)
 	fmt.Printf("extract: %d functions, %d fields, %d accesses, %d violating (function, field) pairs\n", len(names), len(fieldOrder), len(rows), len(violList))
 	fmt.Printf("extract: %d locks, %d nesting edges (%d loop-carried), %d cycle(s), %d unresolved lock expression(s)\n", len(lfacts.locks), len(lfacts.edges), len(lfacts.loopEdges), len(lfacts.cycles), len(lfacts.unresolved))
+	fmt.Printf("extract: %d guarded Session fields, %d accesses, %d (function, field) pairs without the guard outside construction\n", len(sfacts.fields), len(sfacts.rows), len(sfacts.violations))
 }
 
 func closure(fns map[string]*fnInfo, roots []string, followGo bool) map[string]bool {
